@@ -120,6 +120,15 @@ def cauchy_reference(c):
     return s * (1.0 - 1e-9)
 
 
+def _same_gain(c, m, s):
+    """the two candidates of a geometry solver may tie in |q|: then either step is a correct answer.  What must agree is the
+    GAIN |q(step)| - |q(0)| (comparing |q| itself would accept any step when the constant term dominates)"""
+    q = lambda v: abs(c["const"] + float(c["g"] @ v) + 0.5 * float(v @ c["H"] @ v))  # noqa
+    gm, gs = q(m) - abs(c["const"]), q(s) - abs(c["const"])
+    scale = max(float(np.abs(c["g"]) @ (np.abs(m) + np.abs(s))), float((np.abs(m) + np.abs(s)) @ np.abs(c["H"]) @ (np.abs(m) + np.abs(s))), 1e-300)
+    return abs(gm - gs) <= 1e-6 * max(abs(gm), abs(gs)) + 1e-12 * scale
+
+
 def cauchy_correspondence(rng, n_gen):
     """Tie of lean/CobyqaVerif/Alg/Cauchy.lean to the code: on inputs whose ascent corner of the box fits in the trust
     region (no rescaling: the Cauchy direction of each of the two calls IS that corner) the model, run in exact rational
@@ -171,8 +180,7 @@ def cauchy_correspondence(rng, n_gen):
             agree += 1
         else:
             # the two candidates may tie in |q|: then either step is a correct answer of the same magnitude
-            q = lambda v: abs(c["const"] + float(c["g"] @ v) + 0.5 * float(v @ c["H"] @ v))  # noqa
-            if abs(q(m) - q(s)) <= 1e-9 * max(q(m), q(s), 1e-300):
+            if _same_gain(c, m, s):
                 agree += 1
             else:
                 mism.append((c, f"exact model step {m.tolist()} vs implementation {np.asarray(s).tolist()}"))
@@ -219,8 +227,7 @@ def cauchy_full_correspondence(rng, n_gen):
         if float(np.linalg.norm(m - s)) <= 1e-6 * sc:
             agree += 1
         else:
-            q = lambda v: abs(c["const"] + float(c["g"] @ v) + 0.5 * float(v @ c["H"] @ v))  # noqa
-            if abs(q(m) - q(s)) <= 1e-9 * max(q(m), q(s), 1e-300):
+            if _same_gain(c, m, s):
                 agree += 1
             else:
                 mism.append((c, f"exact model step {m.tolist()} vs implementation {np.asarray(s).tolist()}"))
@@ -236,7 +243,7 @@ def ntcg_correspondence(rng, n_gen, nmax=3):
     import warnings
     import exact
     import cobyqa.subsolvers as S
-    from c15 import _stream_driver
+    from c15 import _stream_driver, _close, _enough
     cases = [c for c in (subgen.gen(rng, "normal") for _ in range(n_gen)) if c["n"] <= nmax]
     # a share of problems whose first phase ends on the trust-region boundary (small radius): the second phase runs
     for k, c in enumerate(cases):
@@ -275,15 +282,15 @@ def ntcg_correspondence(rng, n_gen, nmax=3):
         second += int(a.startswith("ok1") and bool(c["improve_tcg"]))
         mdl = np.array([float(Fr(t)) for t in a.split()[1:]])
         sc = max(float(np.linalg.norm(s)), float(np.linalg.norm(mdl)), 1e-300)
-        if float(np.linalg.norm(mdl - s)) <= 1e-6 * sc:
+        if _close(mdl, s):
             agree += 1
         elif a.startswith("ok1d") and viol2(c, s) <= viol2(c, mdl) * (1 + 1e-9) + 1e-300:
             degenerate += 1       # one free variable left: the direction of rotation is 0 / 0, binary64 rotates along rounding noise
         else:
             mism.append((c, f"exact model step {mdl.tolist()} vs implementation {np.asarray(s).tolist()} (improve_tcg={c['improve_tcg']})"))
-    return {"cases": len(cases), "agree": agree, "skipped_too_expensive": skipped, "mismatches": len(mism), "entered_the_second_phase": second,
+    return _enough({"cases": len(cases), "agree": agree, "skipped_too_expensive": skipped, "mismatches": len(mism), "entered_the_second_phase": second,
             "degenerate_second_phase_accepted": degenerate,
-            "origin_infeasible": sum(1 for c in cases if np.any(c["bub"] < 0) or np.any(c["beq"] != 0)), "left_out_because_of_an_all_zero_row": n_zero}, mism
+            "origin_infeasible": sum(1 for c in cases if np.any(c["bub"] < 0) or np.any(c["beq"] != 0)), "left_out_because_of_an_all_zero_row": n_zero}, "normal"), mism
 
 
 def spider_correspondence(rng, n_gen):
@@ -321,8 +328,7 @@ def spider_correspondence(rng, n_gen):
             continue
         m = np.array([float(Fr(t)) for t in a.split()[1:]])
         sc = max(float(np.linalg.norm(s)), float(np.linalg.norm(m)), 1e-300)
-        q = lambda v: abs(c["const"] + float(c["g"] @ v) + 0.5 * float(v @ c["H"] @ v))  # noqa
-        if float(np.linalg.norm(m - s)) <= 1e-9 * sc or abs(q(m) - q(s)) <= 1e-9 * max(q(m), q(s), 1e-300):
+        if float(np.linalg.norm(m - s)) <= 1e-9 * sc or _same_gain(c, m, s):
             agree += 1
         else:
             mism.append((c, f"exact model step {m.tolist()} vs implementation {np.asarray(s).tolist()}"))
